@@ -186,8 +186,10 @@ fn replay_one(case: &Value) -> Result<usize, String> {
         let got: Value = match (op, mode) {
             ("send", "oneway") => unit_res(&o.oneway()),
             ("send", "more") => unit_res(&o.more().map(|_| ())),
-            ("send", "call") | ("call", _) => {
-                let r = o.call();
+            ("send", "call") | ("call", _) | ("send", "upgrade") => {
+                // a completed call is one history entry without its mode: the wire says whether it was sent by call() or upgrade()
+                let announced = case["wire"].as_array().unwrap().iter().find(|w| w["c"].as_u64() == Some(c)).and_then(|w| w["mode"].as_str()).unwrap_or("");
+                let r = if mode == "upgrade" || (op == "call" && announced == "upgrade") { o.upgrade() } else { o.call() };
                 let (k2, v) = classify(&r, c);
                 if let Some(v) = v {
                     let n = consumed.entry(c).or_insert(0);
@@ -250,7 +252,7 @@ fn replay_one(case: &Value) -> Result<usize, String> {
         .iter()
         .filter(|r| r["parameters"]["c"] != json!(99))
         .map(|r| {
-            let mode = if r["oneway"] == json!(true) { "oneway" } else if r["more"] == json!(true) { "more" } else { "call" };
+            let mode = wire_mode(r);
             (r["parameters"]["c"].as_u64().unwrap_or(0), mode.to_string())
         })
         .collect();
@@ -292,6 +294,18 @@ pub fn run(_args: &[String]) {
         emit(f);
     }
     emit(&json!({"summary": true, "cases": cases.len(), "executions": cases.len(), "steps": steps.load(Ordering::Relaxed), "failures": fails.lock().unwrap().len()}));
+}
+
+/// The call mode a request on the wire announces: exactly the flags of that mode and no others.
+fn wire_mode(r: &Value) -> &'static str {
+    let f = |k: &str| r[k] == json!(true);
+    match (f("more"), f("oneway"), f("upgrade")) {
+        (false, false, false) => "call",
+        (true, false, false) => "more",
+        (false, true, false) => "oneway",
+        (false, false, true) => "upgrade",
+        _ => "mixed-flags",
+    }
 }
 
 /// `vh clienttrace`: T threads share one connection, each runs a seeded random program; one record per run.
@@ -343,7 +357,7 @@ pub fn run_trace(args: &[String]) {
                                       json!({"cont": false, "err": "Custom", "par": "ok"}), json!({"cont": false, "err": "MethodNotFound", "par": "missing"})];
                         let mut sc: Vec<Value> = (0..k).map(|_| json!({"cont": true, "err": "", "par": "ok"})).collect();
                         sc.push(finals[rng.below(finals.len())].clone());
-                        let mode = ["call", "more", "more", "oneway"][rng.below(4)];
+                        let mode = ["call", "more", "more", "oneway", "upgrade"][rng.below(5)];
                         // a third of the requests are big: whatever a call does between looking at the connection and owning it
                         // (encoding, copying) then takes long enough for another thread to get in between
                         let pad = if rng.chance(1, 3) { "p".repeat(150_000) } else { String::new() };
@@ -355,7 +369,7 @@ pub fn run_trace(args: &[String]) {
                         (objs[i].0, "next", "", json!([]))
                     } else {
                         let i = rng.below(objs.len());
-                        (objs[i].0, "send", ["call", "more", "oneway"][rng.below(3)], json!([]))
+                        (objs[i].0, "send", ["call", "more", "oneway", "upgrade"][rng.below(4)], json!([]))
                     };
                     let o = &mut objs.iter_mut().find(|x| x.0 == c).unwrap().1;
                     let s0 = seq.fetch_add(1, Ordering::SeqCst);
@@ -363,6 +377,7 @@ pub fn run_trace(args: &[String]) {
                     let res: Value = std::panic::catch_unwind(std::panic::AssertUnwindSafe(|| match (op, mode) {
                         ("send", "oneway") => unit_res(&o.oneway()),
                         ("send", "more") => unit_res(&o.more().map(|_| ())),
+                        ("send", "upgrade") => classify(&o.upgrade(), c).0,
                         ("send", _) => classify(&o.call(), c).0,
                         _ => match o.next() {
                             None => json!(["None"]),
@@ -381,7 +396,7 @@ pub fn run_trace(args: &[String]) {
         drop(_a);
         let _ = svc.join();
         let wire: Vec<Value> = log.lock().unwrap().iter().map(|r| {
-            let mode = if r["oneway"] == json!(true) { "oneway" } else if r["more"] == json!(true) { "more" } else { "call" };
+            let mode = wire_mode(r);
             json!({"c": r["parameters"]["c"], "mode": mode})
         }).collect();
         let _ = writeln!(f, "{}", json!({"run": r, "threads": threads, "wire": wire}));
